@@ -374,6 +374,11 @@ def definitely_different(x, y):
     return None
 
 
+_REDUCTION_FAMILY = {"numpy.sum": "sum", ".sum": "sum", "numpy.mean": "mean", ".mean": "mean", "numpy.average": "mean", "numpy.max": "max", ".max": "max",
+                     "numpy.min": "min", ".min": "min", "numpy.prod": "product", ".prod": "product", "numpy.median": "median", "numpy.std": "std", ".std": "std",
+                     "numpy.var": "var", ".var": "var"}
+
+
 def term_definite_difference(a, b, depth=0):
     """Two value-graph terms of identical shape that differ only in index expressions (not identically equal), numeric
     constants, comparison operators or attribute names.  Returns a reason or None."""
@@ -423,6 +428,9 @@ def term_definite_difference(a, b, depth=0):
             return f"attribute .{a[2]} vs .{b[2]}" if a[1] == b[1] else None
         return term_definite_difference(a[1], b[1], depth + 1)
     if ka == "call":
+        fa_, fb_ = _REDUCTION_FAMILY.get(a[1]), _REDUCTION_FAMILY.get(b[1])
+        if fa_ and fb_ and fa_ != fb_ and a[2] == b[2] and a[3] == b[3]:
+            return f"{fa_} where {fb_} is required"       # different reductions of the same operand
         if a[1] != b[1] or len(a[2]) != len(b[2]) or [k for k, _ in a[3]] != [k for k, _ in b[3]]:
             return None
         reason = None
